@@ -1,5 +1,8 @@
 
 import numpy as np
+
+from ...util import hashobj
+
 from .ancillary_feature import AncillaryFeature
 
 
@@ -91,7 +94,13 @@ def has_ml_scores(mm):
         # this ML score. But this use case is basically non-existent and
         # the performance impact is probably negligible.
         candidates = AncillaryFeature.get_instances(feat)
-        idlist.append((feat, [c.hash(mm) for c in candidates]))
+        if candidates:
+            ids = [c.hash(mm) for c in candidates]
+        else:
+            # The scores are stored or temporary data: identify them by
+            # value, so that a replaced temporary feature is noticed.
+            ids = [hashobj(mm[feat])]
+        idlist.append((feat, ids))
     return idlist
 
 
